@@ -1,10 +1,12 @@
-/- GENERATED on every run by harness (py2lean.py) from src/py_gql/lang/lexer.py (Lexer._read_name, _read_over_digits, _read_over_integer, _read_over_whitespace).
+/- GENERATED on every run by harness (py2lean.py) from src/py_gql/lang/lexer.py (Lexer._read_name, _read_over_digits, _read_over_integer, _read_over_whitespace, _read_ellipsis).
    Do not edit: the check rewrites this file from /repo's working tree. -/
 /- Translated by py2lean.Tr. Constructs used and how they were read:
      * `is None` on a str/int-typed variable -> constant
+     * for -> structural recursion on the sequence
      * index (IndexError explicit)
      * method: self.X -> variable self_X; mutated attributes returned next to the result
      * raise
+     * range(a, b) -> Py.range (the list of the integers a .. b-1)
      * self.m() -> call of the translated method on the current attribute values
      * slice
      * try/except <classes> (one-statement body) -> match on the raised class name
@@ -286,5 +288,52 @@ def Lexer._read_over_whitespace (self__source : List Nat) (self__position : Int)
      | .fall pos =>
        (let self__position := pos
         (.ok ((), self__position)))))
+
+/-
+def _read_ellipsis(self) -> Ellip:
+        start = self._position
+        for _ in range(3):
+            try:
+                char = self._source[self._position]
+            except IndexError:
+                raise UnexpectedEOF(self._position, self._source)
+
+            self._position += 1
+
+            if char != ".":
+                raise UnexpectedCharacter(
+                    'Expected "." but found "%s"' % char,
+                    self._position,
+                    self._source,
+                )
+        return Ellip(start, self._position)
+-/
+def Lexer._read_ellipsis.loop1 (self__source : List Nat) : (List Int) → Int → Py.Flow String Int ((Int × Int) × Int)
+  | [], self__position => .fall self__position
+  | _ :: rest__, self__position =>
+    (match ((match (Py.getItem self__source self__position) with
+      | .error e__ => (.raise e__)
+      | .ok char =>
+        (.fall char)) : Py.Flow String Nat ((Int × Int) × Int)) with
+      | .ret r__ => (.ret r__)
+      | .raise e__ =>
+        (if e__ == "IndexError" then
+          (.raise "UnexpectedEOF")
+        else
+          (.raise e__))
+      | .fall char =>
+        (let self__position := (self__position + (1 : Int))
+         (if (char != 46) then
+           (.raise "UnexpectedCharacter")
+         else
+           (Lexer._read_ellipsis.loop1 self__source rest__ self__position))))
+
+def Lexer._read_ellipsis (self__source : List Nat) (self__position : Int) : Except String ((Int × Int) × Int) :=
+  (let start := self__position
+   (match (Lexer._read_ellipsis.loop1 self__source (Py.range (0 : Int) (3 : Int)) self__position) with
+     | .ret r__ => (.ok r__)
+     | .raise e__ => (.error e__)
+     | .fall self__position =>
+       (.ok ((Py.tok2 start self__position), self__position))))
 
 end PyGql.Generated.Tr
